@@ -1,7 +1,10 @@
 """Unit `names` (C16): Label / DomainName constructors and relations against DomainName::wf."""
 from units.base import *
+import re
 
-TRUSTED = TRUSTED_COMMON + ["<[T]>::ends_with specified as structural suffix (prelude/std_slices.rs)"]
+TRUSTED = TRUSTED_COMMON + ["<[T]>::ends_with specified as structural suffix (prelude/std_slices.rs)",
+    "text constructors: str::split / is_empty / as_bytes / starts_with / ends_with, `==` on str and format! are shims with NO postcondition (R33, R36); `for (i, x) in v.iter().enumerate()` is written as an index loop (R34); `bytes.try_into()` as `Label::try_from(bytes)` (R35); to_dotted_string is a stand-in",
+    "axiom_label_vec_len: Vec<Label>::len() <= isize::MAX / 32 (Rust allocation limit)"]
 
 SPECS = dict(NAME_SPECS)
 SPECS["DomainName::root_domain"] = dict(SPECS["DomainName::root_domain"],
@@ -17,11 +20,61 @@ SPECS["DomainName::from_labels"] = dict(SPECS["DomainName::from_labels"],
     rewrites=["R1"],
     loops={"0": {"kw": "for", "iter_name": "it__", "spec": """        invariant
             len == labels@.len() + labels_sum(labels@.take(it__.index@ as int)) - it__.index@,
-            it__.index@ <= labels@.len(), labels@.len() <= 0x1_0000_0000,
+            it__.index@ <= labels@.len(), labels@.len() <= 0x03ff_ffff_ffff_ffff,
             all_labels_wf(labels@),
             blank_label <==> exists|j: int| 0 <= j < it__.index@ && (#[trigger] labels@[j]).v().len() == 0,
             blank_label ==> it__.index@ > 0 && labels@[it__.index@ - 1].v().len() == 0 && forall|j: int| 0 <= j < it__.index@ - 1 ==> (#[trigger] labels@[j]).v().len() > 0,""",
         "entry": "broadcast use lemma_labels_sum_push; assert(labels@.take(it__.index@ as int + 1) =~= labels@.take(it__.index@ as int).push(*label)); proof { lemma_labels_sum_upper(labels@.take(it__.index@ as int)); } assert(labels@[it__.index@ as int].wf());"}})
+
+
+# ---- names from text: the string operations are shims WITHOUT postconditions (whatever pieces the text is cut into, the result
+# goes through Label::try_from and DomainName::from_labels), so "well-formed or rejected" holds for every input text
+TEXT_SHIMS = """
+// R33: str / String operations the verifier has no model for; results unconstrained
+#[verifier::external_body] fn shim_str_eq(a: &str, b: &str) -> (r: bool) { a == b }
+#[verifier::external_body] fn shim_split_dots<'a>(s: &'a str) -> (r: Vec<&'a str>) { s.split('.').collect::<Vec<_>>() }
+#[verifier::external_body] fn shim_str_is_empty(s: &str) -> (r: bool) { s.is_empty() }
+#[verifier::external_body] fn shim_str_as_bytes<'a>(s: &'a str) -> (r: &'a [u8]) { s.as_bytes() }
+#[verifier::external_body] fn shim_ends_with_dot(s: &str) -> (r: bool) { s.to_string().ends_with('.') }
+#[verifier::external_body] fn shim_starts_with_dot(s: &str) -> (r: bool) { s.starts_with('.') }
+#[verifier::external_body] fn shim_format1<A: std::fmt::Display + ?Sized>(f: &str, a: &A) -> (r: String) { unimplemented!() }
+#[verifier::external_body] fn shim_format2<A: std::fmt::Display + ?Sized, B: std::fmt::Display + ?Sized>(f: &str, a: &A, b: &B) -> (r: String) { unimplemented!() }
+// Rust allocation limit: a Vec never occupies more than isize::MAX bytes and size_of::<Label>() >= 32 (trusted)
+pub broadcast axiom fn axiom_label_vec_len(v: Vec<Label>)
+    ensures #[trigger] v@.len() <= 0x03ff_ffff_ffff_ffff;
+"""
+
+
+def _r36(txt):
+    """R36: `&format!("..{a}..{b}..")` with identifier placeholders only -> `shim_formatN("<fmt>", &a, &b).as_str()`."""
+    def rep(m):
+        fmt = m.group(1)
+        args = re.findall(r"\{(\w+)\}", fmt)
+        if not 1 <= len(args) <= 2 or re.search(r"\{[^}\w]", fmt):
+            return m.group(0)
+        return "shim_format%d(\"%s\", %s).as_str()" % (len(args), fmt.replace("{", "<").replace("}", ">"), ", ".join("&" + a for a in args))
+    return re.subn(r"&format!\(\"([^\"]*)\"\)", rep, txt)
+
+
+TEXT_SPECS = {
+    "DomainName::from_dotted_string": {"props": ["C16"],
+        "rewrites": [("R33", r's == "\."', 'shim_str_eq(s, ".")'),
+                     ("R33", r"s\.split\('\.'\)\.collect::<Vec<_>>\(\)", "shim_split_dots(s)"),
+                     ("R34", r"for \((\w+), (\w+)\) in (\w+)\.iter\(\)\.enumerate\(\)([^{]*)\{", r"for \1 in it__: 0..\3.len() \4{ let \2 = &\3[\1];"),
+                     ("R33", r"label_chars\.is_empty\(\)", "shim_str_is_empty(label_chars)"),
+                     ("R35", r"match label_chars\.as_bytes\(\)\.try_into\(\) \{", "match Label::try_from(shim_str_as_bytes(label_chars)) {")],
+        "contract": """    ensures r is Some ==> r->Some_0.wf(), // [C16:name_from_text_is_well_formed_or_rejected]""",
+        "entry": "broadcast use axiom_label_vec_len;",
+        "loops": {"0": {"kw": "for", "spec": """        invariant all_labels_wf(labels@),""", "entry": "broadcast use axiom_label_vec_len;"}}},
+    "DomainName::to_dotted_string": {"props": [], "mode": "assume", "contract": ""},
+    "DomainName::from_relative_dotted_string": {"props": ["C16"],
+        "rewrites": [("R33", r"s\.is_empty\(\)", "shim_str_is_empty(s)"),
+                     ("R33", r"s\.to_string\(\)\.ends_with\('\.'\)", "shim_ends_with_dot(s)"),
+                     ("R33", r"suffix\.starts_with\('\.'\)", "shim_starts_with_dot(suffix.as_str())"),
+                     ("R36", _r36)],
+        "contract": """    requires origin.wf(),
+    ensures r is Some ==> r->Some_0.wf(), // [C16:name_joined_to_an_origin_is_well_formed_or_rejected]"""},
+}
 
 
 def build(G):
@@ -31,10 +84,13 @@ def build(G):
     G.impl(T, "Label", ["new", "len", "is_empty"], "Label::", SPECS)
     G.impl(T, "TryFrom<&[u8]> for Label", ["try_from"], "Label::", SPECS)
     G.impl(T, "DomainName", ["root_domain", "is_root", "from_labels", "make_subdomain_of", "is_subdomain_of"], "DomainName::", SPECS)
+    G.raw(TEXT_SHIMS, ("spec", "text shims"))
+    G.impl(T, "DomainName", ["to_dotted_string", "from_dotted_string", "from_relative_dotted_string"], "DomainName::", TEXT_SPECS)
     end(G)
 
 
 CANARIES = [
+    {"name": "text_constructor_bypasses_from_labels", "file": TYPES, "old": "        Self::from_labels(labels)\n    }\n\n    pub fn from_labels", "new": "        let len = labels.len();\n        Some(Self { labels, len })\n    }\n\n    pub fn from_labels"},
     {"name": "len_256", "file": TYPES, "old": "if blank_label && len <= DOMAINNAME_MAX_LEN {", "new": "if blank_label && len <= DOMAINNAME_MAX_LEN + 1 {"},
     {"name": "no_lowercase", "file": TYPES, "old": "Bytes::copy_from_slice(&mixed_case_octets.to_ascii_lowercase())", "new": "Bytes::copy_from_slice(mixed_case_octets)"},
     {"name": "label_64", "file": TYPES, "old": "if mixed_case_octets.len() > LABEL_MAX_LEN {", "new": "if mixed_case_octets.len() > LABEL_MAX_LEN + 1 {"},
